@@ -1,6 +1,6 @@
 """Which units decide which property (DESIGN.md sections 1, 5)."""
 
-VERUS_UNITS = ['U-FMT', 'U-REACH', 'U-COMPACTAS', 'U-SANITY', 'U-RESOLVE']
+VERUS_UNITS = ['U-FMT', 'U-REACH', 'U-COMPACTAS', 'U-SANITY', 'U-RESOLVE', 'U-CONTAINS']
 
 PROPS = {
     'C15': {
@@ -36,7 +36,7 @@ PROPS = {
     },
     'C10': {
         'level': 'proof',
-        'verus': ['U-SANITY', 'U-RESOLVE'],
+        'verus': ['U-SANITY', 'U-RESOLVE', 'U-CONTAINS'],
         'kani': ['sanity_pass_upto4'],
         'trusted_base': ['Verus 0.2026.09.13, Z3, rustc 1.98.1'],
         'assumptions': [
@@ -79,6 +79,19 @@ PROPS = {
         'not_covered': [
             'composite / variant / sequence / array / tuple / compact / bit-sequence example construction and the recursion-to-error marker (Transformer::resolve: RefCell<HashMap> + function pointers)',
             'seed determinism, encode/decode round trip, "a value is returned whenever no cycle and no empty enum"',
+        ],
+    },
+    'C11': {
+        'level': 'proof',
+        'verus': ['U-CONTAINS'],
+        'kani': ['contains_type_path_n1'],
+        'trusted_base': ['Verus 0.2026.09.13, Z3, rustc 1.98.1'],
+        'assumptions': [
+            'ASSUMED std contracts: Vec<T> == [U] (length + pairwise), String == String (contents), slice.iter().any(f) (exists) -- vx/prelude/std_any_eq.rs',
+        ],
+        'not_covered': [
+            'the validation loop (validate_substitutes_and_derives_against_registry lines 16-72: keys are syn::Path, accumulators are Vec<(syn::Path, HashSet<..>)>)',
+            'similar_type_paths_in_registry (syn::Path in and out)',
         ],
     },
 }
